@@ -236,3 +236,66 @@ NOT_APPLICABLE = {
 for _p in ["C02", "C04", "C05", "C06", "C07", "C09", "C10", "C11", "C13", "C14", "C15", "C16", "C17", "C18", "C19", "C20"]:
     if _p not in CLAIMED:
         NOT_APPLICABLE[_p] = PENDING
+
+
+# Clauses added after the texts above were written (rules prompted by the seeded changes, DESIGN.md section 8).
+# tools/gen_manifest.py inserts "Also decided: ..." before "Not decided:" and extends design_ref / technique.
+ADDENDA = {
+    "C02": ("R02.3, R02.4; section 8",
+            "every site that marks or counts a coercion constructor is behind `not explicit`; the two constness predicates that "
+            "decide const_ok judge a pointer and a reference by is_const(target) and look through const/typedef wrappers",
+            "gated reachability; switch-arm canonical forms"),
+    "C04": ("R04.6, R04.7; section 8",
+            "access labels install their own visibility on the current scope and __begin_publish/__end_publish save from and restore "
+            "into the current scope; a type rebuilt by resolve_type()/substitute_decl() keeps every attribute (copy from *this, or "
+            "every member carried)",
+            "grammar-action rules; rebuild completeness over record fields"),
+    "C05": ("R05.4, R05.5; section 8",
+            "base-class derivations are recorded only for accessible bases with upcast/downcast roles, flags and the virtual-base "
+            "exclusion in place, wrapper parameters take their names from the loop's own element; every call recording a member of "
+            "the class is dominated by the virtual-function inference that sets SC_virtual on keyword-less overrides",
+            "role pairing; call-graph must-pass-through"),
+    "C06": ("R06.4, R06.5, R06.6; section 8",
+            "keyword tokens round-trip grammar -> enumerator -> printer; rebuilt types/parameter lists keep every member (found F-C06b); "
+            "the change-accumulator flags of substitute_decl()/resolve_type() are monotone",
+            "CFG reachability between assignments"),
+    "C07": ("R07.6, conditional clause of R07.2; section 8",
+            "an unevaluable enumerator / array bound is not stored as a number; the conditional alternative's rule precedence lets the "
+            "else-branch extend right over every binary operator and a further `?`",
+            "bison precedence resolution (rule level vs look-ahead token)"),
+    "C10": ("R10.3; section 8",
+            "the finders behind the predicates select members by C++'s criterion: default constructor = no parameters or the first "
+            "defaulted; copy/move finders behind their flag; check_for_constructor sets the flags on the right value-category / "
+            "member-kind edge and not only for one-parameter members (found F-C10a)",
+            "gated reachability over the finders and the classifier"),
+    "C11": ("R11.5, on-every-path clause of R11.1; section 8",
+            "every map_from rewrite runs on every path through its remap_indices; on every returning path of hash_function_signature the "
+            "stored hash is the registered one",
+            "post-dominance; must-assignment analysis"),
+    "C12": ("R12.5; section 8",
+            "the count-controlled byte-copy loops of idf_input_string have no branch depending on the byte read",
+            "loop-condition data dependence"),
+    "C13": ("ordering clauses of R13.3; section 8",
+            "the `was not global` test is evaluated before merge_with merges the flags",
+            "CFG ordering"),
+    "C14": ("non-injective-key clause of R14.5c/d; section 8",
+            "a comparator that ends in a known non-injective key (unscoped name, a count) is not total",
+            "comparator key deny-list"),
+    "C15": ("R15.6, R15.7, resize in R15.2, INT_MIN / -1 in R15.3; section 8",
+            "resize(size()-k) needs the dominating size test like substr/erase; signed / and % are guarded against INT_MIN / -1",
+            "gated reachability"),
+    "C16": ("cycle-edge clause of R16.2; section 8",
+            "on the cycle branch only an edge cycle[i] -> cycle[i+1] of the reported cycle may be given up",
+            "operand-role check on the erase site"),
+    "C18": ("R18.4; section 8",
+            "the boundary and decode formulas of DiyFp, evaluated from their expression trees at sample points, equal Grisu2's definitions",
+            "expression-tree evaluation against a reference formula"),
+    "C19": ("close/bad distinction of o2; section 8",
+            "bad() counts as the failure test only after flush(), not after close(); the status variable is never reset to zero by a later success",
+            "typestate over stream phases"),
+    "C20": ("R20.7, local indices in R20.1; section 8",
+            "subscripts indexed by a local (e.g. the out-parameter of find_module) are bounded like those indexed by a parameter; "
+            "by-name lookup tables are rebuilt after every load (= R13.2)",
+            "gated reachability"),
+}
+
